@@ -8,6 +8,9 @@ func init() {
 			{Name: "map-orders", Pkg: ".", Files: []string{"root/fed.go", "root/c01.go", "root/c02.go", "root/c13.go"}, Entry: "VerifDeterminism", Mode: "seq", Native: true,
 				Quick: map[string]int{"k": 2, "maporder": 1}, Thorough: map[string]int{"k": 2, "maporder": 2},
 				Reach: []string{"two runs compared"}, Functions: pipelineFns, Known: []string{"C13-node-fragments-scrub-order"}},
+			{Name: "batch-interleavings", Pkg: ".", Files: []string{"root/fed.go", "root/c01.go", "root/c08.go"}, Entry: "VerifBatch", Mode: "all", Race: true,
+				Quick: map[string]int{"rmax": 2, "classes": 12}, Thorough: map[string]int{"rmax": 2, "classes": 12},
+				Reach: []string{"batch of several"}, Functions: []string{"(*Gateway).queryHandler", "(*Gateway).queryHandler$1", "(*Gateway).queryHandler$2", "common.AsyncMapReduce[int,*Result,Results]"}},
 			{Name: "repeat-with-cache", Pkg: ".", Files: []string{"root/fed.go", "root/c01.go", "root/c02.go", "root/c13.go"}, Entry: "VerifRepeatWithCache", Mode: "seq", Native: true,
 				Reach: []string{"repeat compared"}, Functions: pipelineFns},
 		},
@@ -15,8 +18,8 @@ func init() {
 			"repeat-with-cache: every ordered pair (B, A) of the README scenario operations: B, A, B sent to one gateway with the caching planner; both answers to B are compared",
 			"map iteration order is a symbolic choice for up to `maporder` range loops of the code under test per run (each such loop runs in insertion order, reversed, or rotated by one), insertion order for the others",
 			"self-composition: the same operation is sent twice to the same gateway and the observables are compared",
-			"gqlparser native; canonical goroutine schedule (interleavings are covered by C08/C11/C20)",
+			"gqlparser native; canonical goroutine schedule for the request path; batch-interleavings: the C08 batch kernel (every interleaving of the per-operation goroutines of a batch of <= 2 operations from 12 classes, each result compared with what the operation receives alone)",
 		},
-		Outside: []string{"more than `maporder` diverging range loops at once", "operations outside the scenario list", "goroutine interleavings"},
+		Outside: []string{"more than `maporder` diverging range loops at once", "operations outside the scenario list", "goroutine interleavings inside the executor (C11, C20)"},
 	})
 }
